@@ -69,6 +69,13 @@ func (f *failing) Read(x []byte) (int, error) {
 var presets = []*ed25519.VerifyOptions{ed25519.VerifyOptionsDefault, ed25519.VerifyOptionsStdLib, ed25519.VerifyOptionsFIPS_186_5, ed25519.VerifyOptionsZIP_215}
 var presetNames = []string{"Default", "StdLib", "FIPS_186_5", "ZIP_215"}
 
+var (
+	otherPriv = ed25519.NewKeyFromSeed(bytes.Repeat([]byte{0x61}, 32))
+	otherPub  = otherPriv.Public().(ed25519.PublicKey)
+	otherMsg  = []byte("an unrelated honest triple")
+	otherSig  = ed25519.Sign(otherPriv, otherMsg)
+)
+
 func verifyAll(r *mon.Run, c Case, what string, pub ed25519.PublicKey, m, sig []byte, base *ed25519.Options, want bool) {
 	exp, err := ed25519.NewExpandedPublicKey(pub)
 	for pi := -1; pi < len(presets); pi++ {
@@ -98,7 +105,13 @@ func verifyAll(r *mon.Run, c Case, what string, pub ed25519.PublicKey, m, sig []
 		}
 		// batch of two (the entry + an unrelated honest one); StdLib (cofactorless) is documented as incompatible with batch-only
 		bv := ed25519.NewBatchVerifier()
-		bv.AddWithOptions(pub, m, sig, &o)
+		// the caller's key buffer is recycled between the Adds: first an unrelated honest triple goes through it
+		var kbuf [32]byte
+		copy(kbuf[:], otherPub)
+		bv.Add(kbuf[:], otherMsg, otherSig)
+		copy(kbuf[:], pub)
+		bv.AddWithOptions(kbuf[:], m, sig, &o)
+		copy(kbuf[:], otherPub)
 		if err == nil {
 			bv.AddExpandedWithOptions(exp, m, sig, &o)
 		}
@@ -109,6 +122,12 @@ func verifyAll(r *mon.Run, c Case, what string, pub ed25519.PublicKey, m, sig []
 		if pan3 {
 			r.Violate(what+"/batch-panic", "BatchVerifier.Verify panicked", c)
 		} else {
+			if len(bits) > 0 && !bits[0] {
+				r.Violate(what+"/batch/unrelated-honest-entry-rejected", "the unrelated honest entry added first (through the same key buffer) is reported invalid", c)
+			}
+			if len(bits) > 0 {
+				bits = bits[1:]
+			}
 			for i, b := range bits {
 				if b != want {
 					r.Violate(fmt.Sprintf("%s/batch-%s/bit%d/want=%v", what, name, i, want), fmt.Sprintf("batch bit %d = %v want %v (preset %s)", i, b, want, name), c)
